@@ -1,5 +1,6 @@
 import NitroVerif.Model.OptDecl
 import NitroVerif.Props.C04
+import NitroVerif.Lemmas.OptProvided
 
 /-!
 C13 — declarations stay unambiguous: one meaning per long name and per letter.
@@ -229,5 +230,65 @@ theorem shared_letter_refuses (d : Decl) (env : Env) (argv : List Str) (h : ¬ (
 example : (dstep (drun [] [.declare .o 0 ['a'], .setShort 0 ['x']]) (.setShort 0 ['y'])).2 = .dev := by decide
 example : (dstep (drun [] [.declare .o 0 ['a']]) (.declare .t 1 ['a'])).2 = .dev := by decide
 example : (dstep (drun [] [.declare .o 0 ['a'], .moveParser]) (.declare .o 0 ['a'])).2 = .obj 0 := by decide
+
+
+/-! ### what this guarantees to the parser -/
+
+theorem nodup_map_inj {α : Type} (f : α → Str) (l : List α) (h : (l.map f).Nodup) (a b : α) (ha : a ∈ l) (hb : b ∈ l)
+    (hab : f a = f b) : a = b := by
+  have h1 := find?_by_key f l h a ha
+  have h2 := find?_by_key f l h b hb
+  rw [hab, h2] at h1
+  simpa using h1.symm
+
+theorem nodup_filter_append {α : Type} (f : α → Str) (l : List α) (p q : α → Bool)
+    (hpq : ∀ x, p x = true → q x = true → False) (h : (l.map f).Nodup) :
+    ((l.filter p).map f ++ (l.filter q).map f).Nodup := by
+  rw [List.nodup_append]
+  refine ⟨h.sublist ((List.filter_sublist).map f), h.sublist ((List.filter_sublist).map f), ?_⟩
+  intro x hx y hy hxy
+  obtain ⟨a, ha, hfa⟩ := List.mem_map.mp hx
+  obtain ⟨b, hb, hfb⟩ := List.mem_map.mp hy
+  rw [List.mem_filter] at ha hb
+  have : a = b := nodup_map_inj f l h a b ha.1 hb.1 (by rw [hfa, hfb, hxy])
+  subst this
+  exact hpq a ha.2 hb.2
+
+/-- **Every parser the declaration API can build has pairwise distinct long names** — across kinds
+and groups, after any history of declaration calls and moves. -/
+theorem declared_names_distinct (ops : List DOp) (allowed : Option Nat) :
+    (allNames (toDecl (drun [] ops) allowed)).Nodup := by
+  have hinv := (history_inv ops).1
+  generalize drun [] ops = s at hinv
+  unfold allNames toDecl
+  simp only [List.map_map, Function.comp_def]
+  have hom := nodup_filter_append (·.name) s (fun x => decide (x.kind = .o)) (fun x => decide (x.kind = .m))
+    (by intro x h1 h2; simp only [decide_eq_true_eq] at h1 h2; rw [h1] at h2; cases h2) hinv
+  rw [List.nodup_append]
+  refine ⟨hom, hinv.sublist ((List.filter_sublist).map _), ?_⟩
+  intro x hx y hy hxy
+  obtain ⟨b, hb, hfb⟩ := List.mem_map.mp hy
+  rw [List.mem_filter] at hb
+  rcases List.mem_append.mp hx with hx | hx
+  · obtain ⟨a, ha, hfa⟩ := List.mem_map.mp hx
+    rw [List.mem_filter] at ha
+    have : a = b := nodup_map_inj (·.name) s hinv a b ha.1 hb.1 (by rw [hfa, hfb, hxy])
+    subst this
+    have h1 := ha.2; have h2 := hb.2
+    simp only [decide_eq_true_eq] at h1 h2
+    rw [h1] at h2; cases h2
+  · obtain ⟨a, ha, hfa⟩ := List.mem_map.mp hx
+    rw [List.mem_filter] at ha
+    have : a = b := nodup_map_inj (·.name) s hinv a b ha.1 hb.1 (by rw [hfa, hfb, hxy])
+    subst this
+    have h1 := ha.2; have h2 := hb.2
+    simp only [decide_eq_true_eq] at h1 h2
+    rw [h1] at h2; cases h2
+
+/-- Hence the refinement theorem of the parser (Props/C01) applies to every parser that can be
+declared: whatever the declaration history, its `parse` is the specification. -/
+theorem declared_parser_refines_spec (ops : List DOp) (allowed : Option Nat) (env : Env) (argv : List Str) :
+    parse (toDecl (drun [] ops) allowed) env argv = specParse (toDecl (drun [] ops) allowed) env argv :=
+  parse_factor _ (declared_names_distinct ops allowed) env argv
 
 end NitroVerif.Props.C13
